@@ -336,4 +336,151 @@ theorem encode_import_names {g : GraphVal} {o : Opts} {s : Skeleton} {order : Li
     importItems s = (wiring s).imports :=
   ⟨encode_imports_complete wf ht hagg hif he, encode_imports_sound wf ht hagg he, (wiring_imports s).symm⟩
 
+/-! ### creation order -/
+
+/-- the two graph values imply the same requests and the same exports -/
+structure SameComposition (g g' : GraphVal) : Prop where
+  reqs : ∀ r, r ∈ impliedReqs g ↔ r ∈ impliedReqs g'
+  exports : ∀ x, x ∈ impliedExports g ↔ x ∈ impliedExports g'
+
+/-- a node with its index and the indices it mentions renamed -/
+def renameNode (ρ : Nat → Nat) (n : Node) : Node :=
+  { n with id := ρ n.id, defAlias := n.defAlias.map ρ, inc := n.inc.map fun e => (e.1, ρ e.2), succ := n.succ.map ρ }
+
+/-- `g'` is `g` with the nodes created in another order: the same packages, the same nodes up
+    to the renaming `ρ` of node indices (in any list order), the same export map up to `ρ` -/
+structure Reordered (ρ : Nat → Nat) (g g' : GraphVal) : Prop where
+  inj : Function.Injective ρ
+  pkgs : g'.pkgs = g.pkgs
+  nodes : g'.nodes.Perm (g.nodes.map (renameNode ρ))
+  exports : g'.exports.Perm (g.exports.map fun e => (e.1, ρ e.2))
+
+theorem argsOf_rename (ρ : Nat → Nat) (inc : List (EdgeW × Nat)) :
+    Node.argsOf (inc.map fun e => (e.1, ρ e.2)) = (Node.argsOf inc).map fun a => (a.1, ρ a.2) := by
+  induction inc with
+  | nil => rfl
+  | cons e inc ih =>
+    obtain ⟨w, s⟩ := e
+    cases w <;> simp [Node.argsOf, ih]
+
+theorem unsatisfiedByArgs_rename (ρ : Nat → Nat) (n : Node) (p : PkgVal) :
+    unsatisfiedByArgs (renameNode ρ n) p = unsatisfiedByArgs n p := by
+  unfold unsatisfiedByArgs
+  apply List.filter_congr
+  intro r _
+  have : (renameNode ρ n).args = n.args.map fun a => (a.1, ρ a.2) := argsOf_rename ρ n.inc
+  rw [this, List.any_map]
+  rfl
+
+theorem reordered_node? {ρ : Nat → Nat} {g g' : GraphVal} (h : Reordered ρ g g') (wf' : WF g') (id : Nat) :
+    g'.node? (ρ id) = (g.node? id).map (renameNode ρ) := by
+  cases hn : g.node? id with
+  | some n =>
+    obtain ⟨hmem, hid⟩ := node?_mem hn
+    have hm' : renameNode ρ n ∈ g'.nodes := h.nodes.mem_iff.mpr (List.mem_map_of_mem hmem)
+    have := node?_of_mem wf'.idsNodup hm'
+    simp only [renameNode] at this
+    simp only [Option.map_some]
+    rw [← hid]
+    exact this
+  | none =>
+    simp only [Option.map_none]
+    cases hn' : g'.node? (ρ id) with
+    | none => rfl
+    | some n' =>
+      exfalso
+      obtain ⟨hmem', hid'⟩ := node?_mem hn'
+      obtain ⟨n, hn0, rfl⟩ := List.mem_map.mp (h.nodes.mem_iff.mp hmem')
+      have : n.id = id := h.inj hid'
+      unfold GraphVal.node? at hn
+      have := List.find?_eq_none.mp hn n hn0
+      simp_all
+
+/-- renaming the node indices does not change what the composition implies -/
+theorem reordered_sameComposition {ρ : Nat → Nat} {g g' : GraphVal} (h : Reordered ρ g g') (wf' : WF g') :
+    SameComposition g g' := by
+  have hpk : ∀ slot, g'.pkg? slot = g.pkg? slot := by intro slot; unfold GraphVal.pkg?; rw [h.pkgs]
+  have hmem : ∀ n', n' ∈ g'.nodes ↔ ∃ n ∈ g.nodes, n' = renameNode ρ n := by
+    intro n'
+    rw [h.nodes.mem_iff, List.mem_map]
+    constructor
+    · rintro ⟨n, hn, e⟩; exact ⟨n, hn, e.symm⟩
+    · rintro ⟨n, hn, e⟩; exact ⟨n, hn, e.symm⟩
+  constructor
+  · intro r
+    rw [mem_impliedReqs, mem_impliedReqs]
+    constructor
+    · rintro (⟨n, hn, slot, sat, p, hk, hp, hr⟩ | ⟨n, hn, nm, hk, hr⟩)
+      · exact Or.inl ⟨renameNode ρ n, (hmem _).mpr ⟨n, hn, rfl⟩, slot, sat, p, hk, by rw [hpk]; exact hp,
+          by rw [unsatisfiedByArgs_rename]; exact hr⟩
+      · exact Or.inr ⟨renameNode ρ n, (hmem _).mpr ⟨n, hn, rfl⟩, nm, hk, hr⟩
+    · rintro (⟨n', hn', slot, sat, p, hk, hp, hr⟩ | ⟨n', hn', nm, hk, hr⟩)
+      · obtain ⟨n, hn, rfl⟩ := (hmem _).mp hn'
+        exact Or.inl ⟨n, hn, slot, sat, p, hk, by rw [← hpk]; exact hp, by rw [← unsatisfiedByArgs_rename ρ]; exact hr⟩
+      · obtain ⟨n, hn, rfl⟩ := (hmem _).mp hn'
+        exact Or.inr ⟨n, hn, nm, hk, hr⟩
+  · intro x
+    have hkind : ∀ id, kindOf g' (ρ id) = kindOf g id := by
+      intro id
+      unfold kindOf
+      rw [reordered_node? h wf' id]
+      cases g.node? id <;> rfl
+    simp only [impliedExports, List.mem_map]
+    constructor
+    · rintro ⟨e, he, rfl⟩
+      refine ⟨(e.1, ρ e.2), h.exports.mem_iff.mpr (List.mem_map_of_mem he), ?_⟩
+      simp [hkind]
+    · rintro ⟨e', he', rfl⟩
+      obtain ⟨e, he, rfl⟩ := List.mem_map.mp (h.exports.mem_iff.mp he')
+      exact ⟨e, he, by simp [hkind]⟩
+
+theorem sameComposition_names {g g' : GraphVal} (h : SameComposition g g') :
+    ∀ x, x ∈ impliedNames g ↔ x ∈ impliedNames g' := by
+  intro x
+  rw [← impliedReqs_names, ← impliedReqs_names, List.mem_map, List.mem_map]
+  constructor
+  · rintro ⟨r, hr, rfl⟩; exact ⟨r, (h.reqs r).mp hr, rfl⟩
+  · rintro ⟨r, hr, rfl⟩; exact ⟨r, (h.reqs r).mpr hr, rfl⟩
+
+/-- `creation_order_invariant` (partial): two encodings of one composition export the same
+    `(name, kind)` pairs, both import every implied import under the same class name with its
+    kind, and every other import item of either is accounted for as a dependency interface or a
+    package component.
+
+    Full statement: `∀ x, x ∈ importItems s ↔ x ∈ importItems s'` as well — FALSE, see
+    `creation_order_counterexample`: which version of a *dependency* interface is imported, and
+    whether it swallows an implied import of its track, depends on the creation order. -/
+theorem creation_order_invariant_partial {g g' : GraphVal} {o : Opts} {s s' : Skeleton} {order order' : List Nat}
+    {agg agg' : Agg} (wf : WF g) (wf' : WF g') (hde : DefsExported g) (hde' : DefsExported g')
+    (hsame : SameComposition g g')
+    (ht : toposort g = .ok order) (ht' : toposort g' = .ok order')
+    (hagg : aggOf g (C02.importsOf g order) = some agg) (hagg' : aggOf g' (C02.importsOf g' order') = some agg')
+    (hif : C02.IfaceNamed agg) (hif' : C02.IfaceNamed agg')
+    (he : encode g o = .ok s) (he' : encode g' o = .ok s') :
+    (∀ x, x ∈ exportItems s ↔ x ∈ exportItems s') ∧
+    (∀ r ∈ impliedReqs g, (canon g r.name, r.ty.kind) ∈ importItems s ∧ (canon g r.name, r.ty.kind) ∈ importItems s') ∧
+    (∀ x ∈ importItems s, ImpAllowed g agg o x.1 x.2) ∧ (∀ x ∈ importItems s', ImpAllowed g' agg' o x.1 x.2) := by
+  refine ⟨?_, ?_, encode_imports_sound wf ht hagg he, encode_imports_sound wf' ht' hagg' he'⟩
+  · intro x
+    rw [encode_export_names wf hde he x, encode_export_names wf' hde' he' x]
+    exact hsame.exports x
+  · intro r hr
+    refine ⟨encode_imports_complete wf ht hagg hif he r hr, ?_⟩
+    rw [canon_congr (sameComposition_names hsame) (mem_impliedReqs_name hr)]
+    exact encode_imports_complete wf' ht' hagg' hif' he' r ((hsame.reqs r).mp hr)
+
+/-- for a renaming of the node indices -/
+theorem creation_order_invariant_renamed {ρ : Nat → Nat} {g g' : GraphVal} {o : Opts} {s s' : Skeleton}
+    {order order' : List Nat} {agg agg' : Agg} (hre : Reordered ρ g g') (wf : WF g) (wf' : WF g')
+    (hde : DefsExported g) (hde' : DefsExported g')
+    (ht : toposort g = .ok order) (ht' : toposort g' = .ok order')
+    (hagg : aggOf g (C02.importsOf g order) = some agg) (hagg' : aggOf g' (C02.importsOf g' order') = some agg')
+    (hif : C02.IfaceNamed agg) (hif' : C02.IfaceNamed agg')
+    (he : encode g o = .ok s) (he' : encode g' o = .ok s') :
+    (∀ x, x ∈ exportItems s ↔ x ∈ exportItems s') ∧
+    (∀ r ∈ impliedReqs g, (canon g r.name, r.ty.kind) ∈ importItems s ∧ (canon g r.name, r.ty.kind) ∈ importItems s') :=
+  let h := creation_order_invariant_partial wf wf' hde hde' (reordered_sameComposition hre wf') ht ht' hagg hagg'
+    hif hif' he he'
+  ⟨h.1, h.2.1⟩
+
 end Wac.Props.C03
